@@ -10,6 +10,7 @@ import (
 
 	gpb "github.com/openconfig/gnmi/proto/gnmi"
 	"github.com/openconfig/ygot/gnmidiff"
+	"github.com/openconfig/ygot/util"
 	"github.com/openconfig/ygot/ygot"
 	"github.com/openconfig/ygot/ytypes"
 	"github.com/openconfig/ygot/zzverif/lib"
@@ -271,7 +272,33 @@ func runC11(r *lib.Run) {
 			if ju, err := jsonUpdate(o, nil, nd.Path); err == nil && len(nd.Path) > 0 {
 				req.Replace = []*gpb.Update{ju}
 			}
-			call("UnmarshalSetRequest", []snap{snapProto("SetRequest", req)}, func() { ytypes.UnmarshalSetRequest(cfg.Schema(), req) })
+			call("UnmarshalSetRequest", []snap{spareCanary("SetRequest", req), snapProto("SetRequest", req)}, func() { ytypes.UnmarshalSetRequest(cfg.Schema(), req) })
+			// the same leaves under a prefix that is the parent of the first path (a client cutting
+			// full.Elem[:k] shares the backing array with the full path; the canary's spare capacity
+			// stands for that)
+			if len(ups) > 0 && len(ups[0].Path.GetElem()) >= 2 {
+				full := ups[0].Path.GetElem()
+				k := 1 + i%(len(full)-1)
+				preq := &gpb.SetRequest{Prefix: &gpb.Path{Elem: append([]*gpb.PathElem{}, full[:k]...)}}
+				for _, u := range ups {
+					el := u.Path.GetElem()
+					same := len(el) > k
+					for j := 0; same && j < k; j++ {
+						if !proto.Equal(el[j], full[j]) {
+							same = false
+						}
+					}
+					if same {
+						preq.Update = append(preq.Update, &gpb.Update{Path: &gpb.Path{Elem: append([]*gpb.PathElem{}, el[k:]...)}, Val: proto.Clone(u.Val).(*gpb.TypedValue)})
+					}
+				}
+				if len(preq.Update) > 0 {
+					jp, js := proto.Clone(preq.Prefix).(*gpb.Path), proto.Clone(preq.Update[0].Path).(*gpb.Path)
+					call("JoinPaths", []snap{spareCanary("prefix", jp), spareCanary("suffix", js), snapProto("prefix", jp), snapProto("suffix", js)}, func() { util.JoinPaths(jp, js) })
+					preq.Delete = []*gpb.Path{proto.Clone(preq.Update[0].Path).(*gpb.Path)}
+					call("UnmarshalSetRequest+prefix", []snap{spareCanary("SetRequest", preq), snapProto("SetRequest", preq)}, func() { ytypes.UnmarshalSetRequest(cfg.Schema(), preq) })
+				}
+			}
 			// notifications whose Delete slice has spare capacity
 			var ns []*gpb.Notification
 			if nn, err := ygot.TogNMINotifications(t, 1, ygot.GNMINotificationsConfig{UsePathElem: true}); err == nil {
@@ -300,7 +327,7 @@ func runC11(r *lib.Run) {
 			call("UnmarshalNotifications", []snap{snapProtos("notifications", ns), spare()}, func() { ytypes.UnmarshalNotifications(cfg.Schema(), ns) })
 			// --- gnmidiff
 			sch := cfg.SchemaWith(lib.NewGen(cfg, r.Seed+11, i, opt).Tree())
-			ss := []snap{snapProto("SetRequest a", req), snapStruct(cfg, "schema.Root", sch.Root), snapValue("schema tree size", len(sch.SchemaTree))}
+			ss := []snap{spareCanary("SetRequest a", req), snapProto("SetRequest a", req), snapStruct(cfg, "schema.Root", sch.Root), snapValue("schema tree size", len(sch.SchemaTree))}
 			req2 := proto.Clone(req).(*gpb.SetRequest)
 			call("DiffSetRequest", append(ss, snapProto("SetRequest b", req2)), func() { gnmidiff.DiffSetRequest(req, req2, sch) })
 			call("DiffSetRequestToNotifications", append(ss, snapProtos("notifications", ns)), func() { gnmidiff.DiffSetRequestToNotifications(req, ns, sch) })
@@ -313,6 +340,6 @@ func runC11(r *lib.Run) {
 		}
 	}
 	r.RequireCov("call:GetNode", "call:Validate", "call:EmitJSON", "call:ConstructIETFJSON", "call:ConstructInternalJSON", "call:Marshal7951", "call:TogNMINotifications", "call:EncodeTypedValue",
-		"call:Diff", "call:DiffWithAtomic", "call:DeepCopy", "call:MergeStructs", "call:Unmarshal", "call:SetNode", "call:SetNode+TolerateJSONInconsistencies", "call:UnmarshalSetRequest", "call:UnmarshalNotifications",
+		"call:Diff", "call:DiffWithAtomic", "call:DeepCopy", "call:MergeStructs", "call:Unmarshal", "call:SetNode", "call:SetNode+TolerateJSONInconsistencies", "call:UnmarshalSetRequest", "call:UnmarshalSetRequest+prefix", "call:JoinPaths", "call:UnmarshalNotifications",
 		"call:DiffSetRequest", "call:DiffSetRequestToNotifications")
 }
